@@ -3,7 +3,8 @@ Model of the Python formatting engine's template language (`pybtex/style/templat
 `join`, `words`, `together`, `sentence`, `field`, `names`, `optional`, `optional_field`,
 `first_of`, `tag`, `href`; `pybtex/style/formatting/__init__.py`: `toplevel`;
 `pybtex/style/names/__init__.py`: `name_part`), of `BaseText.abbreviate`, `textutils.tie_or_space`,
-`Text.from_latex` (LaTeX decoding is a parameter: identity on the value fragment used), the
+`Text.from_latex` (the latexcodec decoder is data: a table value ↦ decoded value, computed by the real
+codec and shipped with every request, as for C09), the
 `apply_func` closures of the shipped styles (`dashify`, `lower`, `capitalize`) and of the
 pipeline `BaseStyle.format_bibliography` (resolve → sort → label → template) with the shipped
 sorting (`none`, `author_year_title`) and label (`number`, `alpha`) styles.
@@ -18,6 +19,8 @@ import PybtexModel.Gen.RichText
 import PybtexModel.Model.Crossref
 import PybtexModel.Model.Citations
 import PybtexModel.Model.Names
+import PybtexModel.Model.UniCase
+import PybtexModel.Gen.StripAccents
 
 namespace Pybtex.Tmpl
 open Pybtex.RT
@@ -55,6 +58,15 @@ structure Ctx where
   db : Option BibData
   /-- `style.format_name(person, abbr)` for the persons of each role of the entry (as written) -/
   personTemplates : List (Str × List T)
+  /-- `codecs.decode(value, 'ulatex')` as data: the decoded form of every field value that is not its own
+  decoded form (no model of latexcodec; the table is computed by the real codec) -/
+  decode : List (Str × Str) := []
+
+/-- `codecs.decode(v, 'ulatex')` according to the table -/
+def decodeOf (tbl : List (Str × Str)) (v : Str) : Str :=
+  match tbl.lookup v with
+  | some d => d
+  | none => v
 
 /-! ### rich-text helpers not in the C08 model -/
 
@@ -100,9 +112,21 @@ end
 def periodStr : RT := .str ['.']
 def addPeriodT (t : RT) : RT := RT.addPeriod Gen.terminators periodStr t
 
+mutual
+/-- `text.isalpha()` with the interpreter's `str.isalpha` (`isAlphaN`: the regenerated Unicode table; the
+rich-text model of C08 has the ASCII version `isAlphaT`). -/
+def isAlphaTU : RT → Bool
+  | .str s => !s.isEmpty && s.all isAlphaN
+  | .sym _ => false
+  | .node _ ps => lenL ps != 0 && isAlphaLU ps
+def isAlphaLU : List RT → Bool
+  | [] => true
+  | p :: ps => isAlphaTU p && isAlphaLU ps
+end
+
 /-- `abbreviate_word`: `word[0].add_period()` if `word.isalpha()`. -/
 def abbreviateWord (w : RT) : RT :=
-  if isAlphaT w then
+  if isAlphaTU w then
     match getIndex w 0 with
     | .ok c => addPeriodT c
     | .error _ => w
@@ -142,7 +166,7 @@ def latexParts : Nat → Nat → Str → Str → Except TErr (List RT × Str)
       else .ok ([.str cur.reverse], r)
     else latexParts fuel level (c :: cur) r
 
-/-- `Text.from_latex(value)` with `decode` = identity. -/
+/-- `LaTeXParser(decoded).parse()`: `Text.from_latex(value)` after the codec (`decodeOf`). -/
 def fromLatex (v : Str) : Except TErr RT :=
   match latexParts (v.length + 1) 0 [] v with
   | .error e => .error e
@@ -201,7 +225,7 @@ def eval : Nat → Ctx → T → Except TErr RT
       | some v =>
         if raw then .ok (applyFn fn (.str v))
         else
-          match fromLatex v with
+          match fromLatex (decodeOf ctx.decode v) with
           | .error e => .error e
           | .ok r => .ok (applyFn fn r)
     | .names role sep sep2 lastSep =>
@@ -282,9 +306,10 @@ structure PEntry where
 
 def sp (l : List Str) : Str := joinWith [' '] l
 
-/-- `author_year_title.SortingStyle.person_key`. -/
+/-- `author_year_title.SortingStyle.person_key`; `.lower()` is `str.lower` of the interpreter (`lowerU`,
+exact outside U+0130 / U+03A3, see `lowerDomain`). -/
 def personKey (p : Person) : Str :=
-  lower (joinWith [' ', ' '] [sp (p.prelast ++ p.last), sp (p.first ++ p.middle), sp p.lineage])
+  lowerU (joinWith [' ', ' '] [sp (p.prelast ++ p.last), sp (p.first ++ p.middle), sp p.lineage])
 
 def personsKey (ps : List Person) : Str := joinWith [' ', ' ', ' '] (ps.map personKey)
 
@@ -330,10 +355,22 @@ def numberLabels (n : Nat) : List Str := (List.range n).map fun i => natToStr (i
 
 /-- `textutils.abbreviate(text)` on plain strings. -/
 def abbreviateStr (s : Str) : Str :=
-  ((splitDelim s []).map fun part => if !part.isEmpty ∧ part.all isAlpha then [part.head!, '.'] else part).flatten
+  ((splitDelim s []).map fun part => if !part.isEmpty ∧ part.all isAlphaN then [part.head!, '.'] else part).flatten
 
-/-- `_strip_nonalnum(parts)` on the ASCII fragment (no accents to strip). -/
-def stripNonalnum (parts : List Str) : Str := parts.flatten.filter isAlnum
+/-- what `_strip_nonalnum` keeps of one character: an ASCII letter or digit is kept, any other ASCII
+character is dropped, a non-ASCII character contributes the ASCII letters / digits among the non-combining
+characters of its canonical decomposition (`Gen.stripAccents`, regenerated from the interpreter's
+`unicodedata`: `Å` gives `A`, `ß` or `ł` nothing) -/
+def stripChar (c : Char) : Str :=
+  if c.toNat < 128 then (if isAlnum c then [c] else [])
+  else
+    match Gen.stripAccents.lookup c.toNat with
+    | some l => l.map Char.ofNat
+    | none => []
+
+/-- `_strip_nonalnum(parts)` = `re.sub('[^A-Za-z0-9]+', '', _strip_accents(''.join(parts)))`; NFD and the
+removal of combining characters work character by character. -/
+def stripNonalnum (parts : List Str) : Str := parts.flatten.flatMap stripChar
 
 def labName (p : Person) : Str := stripNonalnum ((p.prelast ++ p.last).map abbreviateStr)
 
@@ -425,6 +462,8 @@ def mkDb (es : List PEntry) : BibData :=
 structure Item where
   template : T
   personTemplates : List (Str × List T)
+  /-- the codec table of `Ctx.decode` -/
+  decode : List (Str × Str) := []
 
 inductive BibErr where
   | missingField (field key : Str)      -- FieldIsMissing: 'missing <field> in <key>'
@@ -447,7 +486,8 @@ def formatEntries (db : BibData) (items : Str → Option Item) : List (Str × PE
     match items e.key with
     | none => .error (.noTemplate e.key)
     | some it =>
-      match eval evalFuel { entry := e.toEntry, db := some db, personTemplates := it.personTemplates } it.template with
+      match eval evalFuel { entry := e.toEntry, db := some db, personTemplates := it.personTemplates, decode := it.decode }
+          it.template with
       | .error (.missing f) => .error (.missingField f e.key)
       | .error .unbalanced => .error (.unbalanced e.key)
       | .error .outOfFuel => .error .outOfFuel
